@@ -26,7 +26,7 @@ def strata(tier):
         algos=('lru', 'mru', 'lfu', 'rr', 'no'), maxsizes=(2, 1, 3, 5), purges=(False, True), backends=BACKENDS, families=('memarch', 'persist'),
         weights={'call': 14, 'burst': 1, 'load': 2, 'dump': 1, 'dumpk': 1, 'loadk': 1, 'clear': 1, 'clearkeep': 0,
                  'arch_off': 1, 'arch_on': 2, 'awrite': 1},
-        max_ops=30 if tier == 'quick' else 60, pool=(3, 7), prefill_pct=10)
+        max_ops=30 if tier == 'quick' else 60, pool=(3, 7), prefill_pct=10, attach_later_pct=25)
 
 
 def check_trace(case, tr):
@@ -49,6 +49,8 @@ def check_trace(case, tr):
             computed.clear()
         if s.kind == 'arch_on' and seen_off:
             flags['late_attach'] += 1
+        if s.kind == 'attach' and case.get('attach_later'):
+            flags['attached_after_decoration'] = flags.get('attached_after_decoration', 0) + 1
         if s.kind in ('clear', 'clearkeep'):
             # memory-only results are explicitly cleared
             arch = s.post_arch or {}
@@ -122,6 +124,6 @@ def run_case(case):
     return discrs, nt, sorted(set(classes))
 
 
-REQUIRED_CLASSES = ['evicted_to_archive', 'purged_to_archive', 'victim_was_loaded', 'late_attach',
+REQUIRED_CLASSES = ['attached_after_decoration', 'evicted_to_archive', 'purged_to_archive', 'victim_was_loaded', 'late_attach',
                     'eff_algo:lfu', 'eff_algo:mru', 'eff_algo:rr', 'eff_algo:no', 'module:safe']
 TRIGGERS = {}
